@@ -5,6 +5,7 @@
 import abc
 import dataclasses
 import os
+import urllib.parse
 from typing import Optional
 
 from metasequoia_sql.core import ASTCreateTableStatement, SQLParser
@@ -39,11 +40,16 @@ class CreateTableStatementGetter(abc.ABC):
         self._memory_cache = {}  # 内存缓存
 
         # 如果指定了本地暂存地址，则读取本地磁盘暂存的表名
+        self._disk_cache = set()
         if self._disk_path is not None:
-            self._disk_cache = {file_name[:-len(".sql")] for file_name in os.listdir(self._disk_path)
-                                if file_name.endswith(".sql")}
-        else:
-            self._disk_cache = set()
+            for file_name in os.listdir(self._disk_path):
+                if not file_name.endswith(".sql"):
+                    continue
+                # 仅当文件名是某个表名的规范编码时才认为该表已暂存（其他文件忽略，对应的表会重新获取并以编码后的文件名保存）
+                stem = file_name[:-len(".sql")]
+                full_table_name = urllib.parse.unquote(stem)
+                if stem.isascii() and self._disk_file_name(full_table_name) == file_name:
+                    self._disk_cache.add(full_table_name)
 
     def get_statement(self, full_table_name: str) -> ASTCreateTableStatement:
         """获取 table_name 的语法树节点"""
@@ -63,16 +69,23 @@ class CreateTableStatementGetter(abc.ABC):
 
     def load_from_disk(self, full_table_name: str) -> str:
         """从本地磁盘读取暂存的建表语句"""
-        with open(os.path.join(self._disk_path, f"{full_table_name}.sql"), "r", encoding="UTF-8", newline="") as file:
+        path = os.path.join(self._disk_path, self._disk_file_name(full_table_name))
+        with open(path, "r", encoding="UTF-8", newline="") as file:
             return file.read()
 
     def save_to_disk(self, full_table_name: str, sql: str) -> None:
         """从本地磁盘读取暂存的建表语句"""
-        path = os.path.join(self._disk_path, f"{full_table_name}.sql")
+        path = os.path.join(self._disk_path, self._disk_file_name(full_table_name))
         with open(path + ".tmp", "w", encoding="UTF-8", newline="") as file:
             file.write(sql)
         os.replace(path + ".tmp", path)
         self._disk_cache.add(full_table_name)
+
+    @staticmethod
+    def _disk_file_name(full_table_name: str) -> str:
+        """表名对应的暂存文件名：字母、数字和 _.-~ 之外的字符（包括 / \\ % 空字符、空白和非 ASCII 字符）按 UTF-8 编码为 %XX，
+        使不同的表名对应不同的文件，且文件总是位于暂存目录之内"""
+        return urllib.parse.quote(full_table_name, safe="") + ".sql"
 
     @abc.abstractmethod
     def get_sql(self, full_table_name: str) -> str:
